@@ -314,7 +314,10 @@ class Runner:
                 c = self.nc
                 self.nc += 1
                 tr = op[2] if len(op) > 2 else 'websocket'
-                rid, cid = d.ws_open(dict(method='GET', query='transport=%s&sid=%s' % (tr, self.real_sid(op[1])), headers=dict(hx.WS_HDRS)))
+                # header values are case-insensitive: every spelling is the same stimulus
+                hdrs = {'Upgrade': self.rng.choice(['websocket', 'websocket', 'WebSocket', 'WEBSOCKET']) if self.rng else 'websocket',
+                        'Connection': self.rng.choice(['Upgrade', 'upgrade', 'keep-alive, Upgrade']) if self.rng else 'Upgrade'}
+                rid, cid = d.ws_open(dict(method='GET', query='transport=%s&sid=%s' % (tr, self.real_sid(op[1])), headers=hdrs))
                 self.cids[cid] = c
                 self.conn_of[c] = cid
                 q.update(transport='TrWebsocket' if tr == 'websocket' else 'TrPolling', sid='(Some %s)' % self.sref_term(op[1]), upg='true', cup='true',
@@ -331,8 +334,11 @@ class Runner:
                     rid = d.request(dict(method='GET', query='EIO=3&transport=polling'))
                     q.update(eio4='false')
                 elif kind == 'bad_jsonp':
-                    rid = d.request(dict(method='GET', query='EIO=4&transport=polling&j=abc' + sidq))
-                    q.update(jsonp='JBad', sid=sidt)
+                    meth = op[3] if len(op) > 3 else 'GET'
+                    rid = d.request(dict(method=meth, query='EIO=4&transport=polling&j=abc' + sidq, body=b'4p1\x1e1' if meth == 'POST' else b''))
+                    q.update(jsonp='JBad', sid=sidt, method='MPost' if meth == 'POST' else 'MGet')
+                    if meth == 'POST':
+                        q.update(body='(BPackets [CMsg 1 HNone; CClose])')
                 elif kind == 'method':
                     rid = d.request(dict(method='DELETE', query='EIO=4&transport=polling' + sidq))
                     q.update(method='MOther', sid=sidt)
@@ -645,6 +651,8 @@ def gen_history(rng, cfg, length=25, weights=None, max_sessions=4, allow_disc_ha
                 ops.append(('bad', kind))
             elif kind == 'origin':
                 ops.append(('bad', kind, s if rng.random() < 0.7 else None, rng.choice(['GET', 'POST'])))
+            elif kind == 'bad_jsonp':
+                ops.append(('bad', kind, s if rng.random() < 0.8 else None, rng.choice(['GET', 'POST'])))
             else:
                 ops.append(('bad', kind, s if rng.random() < 0.8 else None))
     return ops
